@@ -189,7 +189,12 @@ func (ms *Modules) resolveIdentities() []error {
 			newValues = addChildren(j, newValues)
 		}
 		sort.SliceStable(newValues, func(j, k int) bool {
-			return newValues[j].Name < newValues[k].Name
+			if newValues[j].Name != newValues[k].Name {
+				return newValues[j].Name < newValues[k].Name
+			}
+			// The same name in different modules: order by module
+			// so that the result does not depend on map order.
+			return newValues[j].modulePrefixedName() < newValues[k].modulePrefixedName()
 		})
 		i.Identity.Values = newValues
 		for _, j := range newValues {
